@@ -32,6 +32,7 @@ class World:
         self.extra_rate = None
         self.put = set()
         self.cells = 0            # cells 1..cells have solutions (for transport/advection)
+        self.now = set()          # solutions (re)defined by a SOLUTION block in the simulation being generated
         self.hist = {}
 
     def count(self, k):
@@ -56,6 +57,7 @@ def solution(rng, w, n, simple=False):
     if w.extra_species and rng.random() < 0.5:
         s.append(f" Vf {g(rng, -4, -2)}")
     w.sol.add(n)
+    w.now.add(n)
     w.count("SOLUTION")
     return "\n".join(s) + "\n"
 
@@ -177,6 +179,7 @@ def simulation(rng, w, idx):
     """one simulation (without the END line)"""
     t = []
     before = set(w.sol)          # solutions that exist (are computed) before this simulation starts
+    w.now = set()
     fresh = lambda st: rng.choice([x for x in range(1, 9) if x not in st] or [9])
     # ---- definitions that persist
     if idx == 0 or rng.random() < 0.25:
@@ -325,8 +328,9 @@ def simulation(rng, w, idx):
     elif kind == "dump":
         t.append("DUMP\n -file verif_c04_dump.out\n -solution " + (str(pick(rng, w.sol)) if w.sol else "1") + "\n")
         w.count("DUMP")
-    elif kind == "modify" and (w.sol & before):
-        a = pick(rng, w.sol & before)
+    elif kind == "modify" and ((w.sol & before) - w.now):
+        # (SOLUTION_MODIFY of a solution defined in the same simulation reads uninitialised memory: reported, excluded)
+        a = pick(rng, (w.sol & before) - w.now)
         t.append(f"SOLUTION_MODIFY {a}\n -totals\n  Na {g(rng, -3, -1)}\n  Cl {g(rng, -3, -1)}\n")
         t.append(f"RUN_CELLS\n -cells {a}\n")
         w.count("SOLUTION_MODIFY")
